@@ -51,6 +51,7 @@ def _inlinable(facts, caller, call, stop, lambdas):
         return None
     receiver = None
     src_local = False
+    nested_helper = False
     if call.get("ck") == "member":
         o = skip_copies(call.get("obj"))
         if not (isinstance(o, dict) and o.get("k") == "this"):
@@ -62,7 +63,10 @@ def _inlinable(facts, caller, call, stop, lambdas):
             private_peer = nested and mi is not None and mi.get("access") in (1, 2) and isinstance(o, dict) and o.get("k") == "member" and skip_copies(o.get("base") or {}).get("k") == "this"
             # a wrapper class defined in a source file (not in a header) around a namespace-scope variable: `g_slot.set(x)`
             src_local = (f.file or "").endswith((".cpp", ".cc", ".cxx")) and not f.d.get("virtual") and isinstance(o, dict) and o.get("k") == "ref" and o.get("dk") not in ("local", "param", "field", "enumconst")
-            if named and ("(anonymous namespace)" in f.name or private_peer or src_local):
+            # (c) a method of a helper class nested in the caller's class, called on the caller's own member (m_worker->bindTo(...))
+            nested_helper = bool(caller.cls) and bool(f.cls) and strip_tmpl(f.cls).startswith(strip_tmpl(caller.cls) + "::") and not f.d.get("virtual") and \
+                isinstance(o, dict) and o.get("k") == "member" and skip_copies(o.get("base") or {}).get("k") == "this"
+            if named and ("(anonymous namespace)" in f.name or private_peer or src_local or nested_helper):
                 # (b) a private method of the enclosing class called by a nested helper class through its back pointer (Worker -> handler)
                 receiver = o
             else:
@@ -70,7 +74,7 @@ def _inlinable(facts, caller, call, stop, lambdas):
     m = _method_info(facts, f)
     if m is not None:
         # access: 0 public, 1 protected, 2 private (clang AS_* order: public=0, protected=1, private=2)
-        if m.get("access") == 0 and "(anonymous namespace)" not in f.name and "Private::" not in f.name and not (receiver is not None and src_local):
+        if m.get("access") == 0 and "(anonymous namespace)" not in f.name and "Private::" not in f.name and not (receiver is not None and (src_local or nested_helper)):
             return None
         if m.get("kind") in ("ctor", "dtor"):
             return None
